@@ -44,7 +44,9 @@ META = {
         "raw_enabled is false (the test is evaluated three-valued with the switch off and everything else unknown: a broader test such "
         "as `not (raw and other)` is accepted, an extra conjunct is a violation; truth or ==/!= tests; an identity test `is False` is "
         "rejected because 0 is a legal value), looping over all docutils.nodes.raw of the whole document (traverse/findall, no descend=False; either one loop over the "
-        "document or a sweep `for root in (document, *document.footnotes, ...)` whose roots include the document), and on every "
+        "document or a sweep `for root in (document, *document.footnotes, ...)` whose roots include the document; when the nodes of "
+        "several - overlapping - roots are gathered into one list before any is processed, the loop must skip detached nodes or "
+        "de-duplicate, else a raw node in an attached footnote is visited twice and the clean-up aborts), and on every "
         "iteration replacing or removing the node - a skip is accepted only for detached nodes or a tautological type test, any other "
         "skip (by the node's content, a local derived from it, or configuration) is a violation; nodes are not removed while the lazy "
         "findall() generator walks the tree; the replacement can never be None (Element.replace(old, None) is a no-op: nullable "
@@ -73,7 +75,9 @@ META = {
         "R5: no store, setattr, override-dict entry or keyword argument in the package gives either switch a value other than False "
         "(copying the same switch from another settings object is allowed). "
         "R6: every jinja2 environment constructed in code reachable from a front end's render (the substitution extension evaluates "
-        "expressions written in the document) is SandboxedEnvironment/ImmutableSandboxedEnvironment or a package subclass; "
+        "expressions written in the document) is SandboxedEnvironment/ImmutableSandboxedEnvironment or a package subclass that only restricts the sandbox (an override of "
+        "is_safe_attribute/is_safe_callable must return False or conjoin/guard its result with super()'s verdict; getattr/getitem/call "
+        "overrides must delegate to super()); "
         "jinja2.Environment, NativeEnvironment or jinja2.Template there is a violation (expressions reach open() and the settings "
         "object through __globals__)."
     ),
@@ -631,6 +635,7 @@ class Filter:
         self.loop: ast.For | None = None
         self.lazy = False
         self.swept_registries: set[str] = set()
+        self._flat_roots = None
         self.notes: list[tuple[str, ast.AST]] = []
         self._analyse()
 
@@ -714,7 +719,12 @@ class Filter:
         cov_problem = None
         self.swept_registries: set[str] = set()
         outer = self._root_loop(lp, recv)
-        if outer is not None:
+        flat = getattr(self, "_flat_roots", None)
+        if flat is not None and isinstance(recv, ast.Name) and recv.id == flat[1]:
+            self._roots_expr = flat[0]
+        else:
+            flat = None
+        if outer is not None or flat is not None:
             # `for root in (document, *document.footnotes, ...): for node in root.findall(nodes.raw):`
             elts = self._roots_expr.elts
             plain = [unparse(_deref(e_, fi)) for e_ in elts if not isinstance(e_, ast.Starred)]
@@ -725,7 +735,16 @@ class Filter:
                             self.swept_registries.add(x.attr)
             if self.root not in plain:
                 cov_problem = f"the swept roots `{short(self._roots_expr, 60)}` do not include the whole document `{self.root}`"
-            if anchor is lp:
+            if flat is not None and len(elts) > 1 and not flat[2]:
+                # the roots overlap (a registered footnote normally also hangs in the document tree): gathering the raw
+                # nodes of all roots before any is processed lists such a node twice
+                v_ = lp.target.id if isinstance(lp.target, ast.Name) else ""
+                skips_detached = any(isinstance(n, ast.If) and _only_parent_test(n.test, v_) for n in walk_local(lp))
+                if skips_detached:
+                    self.oks.append(("overlapping-roots", "nodes gathered from overlapping roots, detached (already processed) ones are skipped", lp))
+                else:
+                    self.problems.append(("overlapping-roots", f"the raw nodes of all roots `{short(self._roots_expr, 60)}` are collected before any is processed: a raw node inside a footnote that is attached to the document is listed once for the document and once for the registry; its second visit finds `parent` None and the clean-up aborts (AttributeError) instead of processing the rest of the document normally", lp))
+            if outer is not None and anchor is lp:
                 anchor = outer
                 if not cfg.postdominates(outer, edge):
                     raise Unsupported(f"{fi.module.site(outer)}: the sweep over the roots is not reached on every path of the raw-disabled branch")
@@ -772,9 +791,17 @@ class Filter:
             if dotted(it.func) != "reversed":
                 materialised = True
             it = _deref(it.args[0], fi)
+        dedup = isinstance(it, ast.SetComp)
         if isinstance(it, (ast.ListComp, ast.SetComp)) and len(it.generators) == 1 and not it.generators[0].ifs and isinstance(it.elt, ast.Name) and unparse(it.elt) == unparse(it.generators[0].target):
             materialised = True
             it = _deref(it.generators[0].iter, fi)
+        elif isinstance(it, (ast.ListComp, ast.SetComp)) and len(it.generators) == 2 and not any(g_.ifs for g_ in it.generators) and isinstance(it.elt, ast.Name) and unparse(it.elt) == unparse(it.generators[1].target) and isinstance(it.generators[0].target, ast.Name):
+            # [node for root in (document, *registries) for node in root.findall(nodes.raw)]: all roots gathered up front
+            roots_ = _deref(it.generators[0].iter, fi)
+            if isinstance(roots_, (ast.Tuple, ast.List)) and roots_.elts:
+                self._flat_roots = (roots_, it.generators[0].target.id, dedup)
+                materialised = True
+                it = it.generators[1].iter
         if not isinstance(it, ast.Call):
             return None
         cls = arg_or_kw(it, 0, "condition")
@@ -2141,6 +2168,40 @@ UNSAFE_TEMPLATE = {
 SAFE_TEMPLATE = {"jinja2.sandbox.SandboxedEnvironment", "jinja2.sandbox.ImmutableSandboxedEnvironment"}
 
 
+SANDBOX_HOOKS = ("is_safe_attribute", "is_safe_callable", "getattr", "getitem", "call", "unsafe_undefined", "call_binop", "call_unop")
+
+
+def _sandbox_hooks_weakened(ci) -> tuple[FunctionInfo, str] | None:
+    """A subclass of the sandbox may only *restrict* the safety hooks: every value an override of
+    is_safe_attribute / is_safe_callable returns must be False or be conjoined with (or guarded by) the
+    base class's verdict `super().<hook>(...)`; getattr/getitem/call overrides must delegate to super()."""
+    for name in SANDBOX_HOOKS:
+        m = ci.methods.get(name)
+        if m is None:
+            continue
+        sup = [c for c in _own_calls(m) if (dotted(c.func) or "") == f"super().{name}"]
+        if not sup:
+            return m, f"does not consult super().{name}() at all"
+        if name not in ("is_safe_attribute", "is_safe_callable"):
+            continue
+        cfg = get_cfg(m)
+        sup_names = {t.id for n in m.local_nodes() if isinstance(n, ast.Assign) and n.value in sup for t in n.targets if isinstance(t, ast.Name)}
+
+        def is_sup(e: ast.expr) -> bool:
+            return e in sup or (isinstance(e, ast.Name) and e.id in sup_names)
+
+        for r in [n for n in m.local_nodes() if isinstance(n, ast.Return)]:
+            v = r.value
+            if v is None or (isinstance(v, ast.Constant) and not v.value):
+                continue
+            if is_sup(v) or (isinstance(v, ast.BoolOp) and isinstance(v.op, ast.And) and any(is_sup(x) for x in v.values)):
+                continue
+            if any(pol and is_sup(t) for t, pol in cfg.guards(r)):
+                continue  # only reached when the base class already said yes
+            return m, f"can return `{short(v, 50)}` without the base class's verdict (super().{name}() is not a conjunct or guard of that result)"
+    return None
+
+
 @rule("C20.R6")
 def r6_templates_sandboxed(corpus: Corpus, rep: Report, tier: str):
     rep.rule("C20.R6", "every template environment that evaluates expressions taken from the document (substitutions) is jinja2's SandboxedEnvironment: a plain Environment lets `{{ x.__globals__[...] }}` reach open() and the settings object")
@@ -2152,9 +2213,18 @@ def r6_templates_sandboxed(corpus: Corpus, rep: Report, tier: str):
             for fq, chain in _reach(corpus, [rm]).items():
                 reach.setdefault(fq, chain)
     safe = set(SAFE_TEMPLATE)
-    for ci in corpus.all_classes():  # package subclasses of a sandboxed environment
-        if any(b in safe for b in ci.bases):
-            safe.add(f"{ci.module.name}.{ci.name}")
+    weakened: dict[str, tuple[FunctionInfo, str]] = {}
+    for _ in range(3):
+        for ci in corpus.all_classes():  # package subclasses of a sandboxed environment
+            full_ = f"{ci.module.name}.{ci.name}"
+            if full_ not in safe and any(b in safe for b in ci.bases):
+                safe.add(full_)
+                for b in ci.bases:
+                    if b in weakened:
+                        weakened[full_] = weakened[b]
+                bad = _sandbox_hooks_weakened(ci)
+                if bad is not None:
+                    weakened[full_] = bad
     n = 0
     for fi in corpus.all_functions():
         for c in _own_calls(fi):
@@ -2174,7 +2244,18 @@ def r6_templates_sandboxed(corpus: Corpus, rep: Report, tier: str):
                 rep.listed("C20.R6", k, site, "not reachable from a front end's render (templates there do not come from a parsed document)")
                 continue
             n += 1
-            if full in safe:
+            if full in weakened:
+                m_, why_ = weakened[full]
+                rep.violation(
+                    "C20.R6",
+                    f"{m_.fq}|sandbox hook replaced",
+                    m_.site(),
+                    f"{last} derives from jinja2's sandbox but {m_.qualname} {why_}: the checks of the base class (is_internal_attribute: gi_frame/gi_code, cr_frame, "
+                    "f_globals/tb_frame of frames, mro, func_globals, ...; unsafe callables) no longer apply to expressions written in the document, "
+                    "which can then reach open() and the settings object again",
+                    reach.get(fi.fq, reach.get(owner.fq, [])),
+                )
+            elif full in safe:
                 rep.ok("C20.R6", k, site, f"{last}: attribute access to internals (__globals__, __builtins__, ...) is refused")
             elif full in UNSAFE_TEMPLATE:
                 rep.violation(
@@ -2285,6 +2366,18 @@ def mutants(corpus: Corpus):
             top_seg = segment(dm.src, top)
             srcm = srcm.replace(top_seg.split("\n", 1)[0], f"{wname} = None\n{indent_of(parse, top)}" + top_seg.split("\n", 1)[0], 1)
             out.append(Mutant("c20-filter-shared-message-memoised", "C20.R1", dm.rel, srcm, expect="one-message-per-node"))
+        # 3g. all roots gathered into one list before the first node is processed (overlapping roots -> a node twice)
+        fpg = _filter_parts(parse, flt)
+        if fpg["outer"] is not None and fpg["loop"] is not None and isinstance(fpg["outer"].target, ast.Name):
+            o_, l_ = fpg["outer"], fpg["loop"]
+            inner_iter = l_.iter.args[0] if isinstance(l_.iter, ast.Call) and dotted(l_.iter.func) in ("list", "tuple") and l_.iter.args else l_.iter
+            io, il = indent_of(parse, o_), indent_of(parse, l_)
+            body_src = "\n".join(ln[len(il) - len(io):] if ln.startswith(il) else ln for ln in segment(dm.src, l_).split("\n")[1:])
+            flat_src = (
+                f"raw_nodes = [{unparse(l_.target)} for {o_.target.id} in {unparse(o_.iter)} for {unparse(l_.target)} in {unparse(inner_iter)}]\n"
+                f"{io}for {unparse(l_.target)} in raw_nodes:\n" + body_src
+            )
+            out.append(Mutant("c20-filter-roots-gathered-up-front", "C20.R1", dm.rel, splice(dm.src, o_, flat_src), expect="overlapping-roots"))
         # 4. extra condition
         out.append(Mutant("c20-filter-extra-condition", "C20.R1", dm.rel, splice(dm.src, flt.test, segment(dm.src, flt.test) + " and not config.gfm_only"), expect="raw filter|test"))
         loop = find_node(parse, lambda n: isinstance(n, ast.For) and "nodes.raw" in unparse(n.iter))
@@ -2455,6 +2548,11 @@ def mutants(corpus: Corpus):
     if envc is not None:
         out.append(Mutant("c20-substitution-environment-not-sandboxed", "C20.R6", base.rel, splice(base.src, envc.func, "jinja2.Environment"), expect="render_substitution", canary=True))
         out.append(Mutant("c20-substitution-native-environment", "C20.R6", base.rel, splice(base.src, envc.func, "jinja2.nativetypes.NativeEnvironment"), expect="render_substitution"))
+        cls_weak = "\n\nclass _SubstitutionEnvironment(jinja2.sandbox.SandboxedEnvironment):\n    def is_safe_attribute(self, obj, attr, value):\n        return not attr.startswith(\"__\")\n"
+        cls_or = "\n\nclass _SubstitutionEnvironment(jinja2.sandbox.SandboxedEnvironment):\n    def is_safe_attribute(self, obj, attr, value):\n        return super().is_safe_attribute(obj, attr, value) or attr in (\"_fields\", \"_asdict\", \"mro\")\n"
+        cls_call = "\n\nclass _SubstitutionEnvironment(jinja2.sandbox.SandboxedEnvironment):\n    def is_safe_callable(self, obj):\n        return callable(obj)\n"
+        for mid, txt in (("c20-sandbox-subclass-replaces-attribute-check", cls_weak), ("c20-sandbox-subclass-widens-attribute-check", cls_or), ("c20-sandbox-subclass-replaces-callable-check", cls_call)):
+            out.append(Mutant(mid, "C20.R6", base.rel, splice(base.src, envc.func, "_SubstitutionEnvironment") + txt, expect="sandbox hook replaced"))
     else:
         out.append(("c20-substitution-environment-not-sandboxed", "no SandboxedEnvironment(...) in render_substitution"))
     # R4
